@@ -36,6 +36,14 @@ func (fr *Frame) exec(in ssa.Instruction) {
 		fr.curAddr = i.Addr
 		fr.guardAccess(l, true, i.Pos())
 		fr.curAddr = nil
+		if fa, ok := i.Addr.(*ssa.FieldAddr); ok {
+			// anchor `write <Type.field>`: an assignment to that field (of any object of the type)
+			if n := namedOf(fa.X.Type()); n != nil {
+				if st, ok := n.Underlying().(*types.Struct); ok {
+					fr.anchorAsserts("write", n.Obj().Name()+"."+st.Field(fa.Field).Name(), i.Pos(), map[string]*Val{"v": fr.val(i.Val), "recv": fr.val(fa.X)})
+				}
+			}
+		}
 		fr.storeLoc(l, fr.val(i.Val).T)
 	case *ssa.FieldAddr:
 		fr.nilCheck(i.X, i.Pos(), "fieldaddr")
@@ -183,7 +191,7 @@ func (fr *Frame) execPanic(i *ssa.Panic) {
 	if fr.fn != fr.vc.fn {
 		name = fmt.Sprintf("%s/panic@%s#%s", relFuncName(fr.vc.fn), relFuncName(fr.fn), hash4(src))
 	}
-	fr.vc.oblige("panic", name, p, src, fr.reach, "false", fr.vc.safetyProps())
+	fr.vc.oblige("panic", name, p, src, fr.reach, "false", fr.vc.safetyProps("panic"))
 }
 
 func (fr *Frame) newRef() Term {
